@@ -123,6 +123,9 @@ type caseJSON struct {
 	Tx      *caseJSON `json:"tx,omitempty"`       // the transaction the log / file was captured from
 	SynSeed int64     `json:"syn_seed,omitempty"` // seed of a synthetic log
 	SynIdx  int       `json:"syn_idx,omitempty"`
+	// series: several transactions on one WAF; Focus = index of the transaction this case is about
+	Series []txSpec `json:"series,omitempty"`
+	Focus  int      `json:"focus,omitempty"`
 	// reject: a configuration the parser must refuse
 	Directives string `json:"directives,omitempty"`
 }
@@ -362,13 +365,26 @@ type runner struct {
 	nontriv        int
 	nfile          int
 	ncap, capLimit int
+	quiet          bool
+}
+
+func (rn *runner) dist(k string) {
+	if !rn.quiet {
+		rn.res.InputDistribution[k]++
+	}
 }
 
 func (rn *runner) fail(key, what string, c any) {
+	if rn.quiet {
+		return
+	}
 	rn.res.OracleFailures = append(rn.res.OracleFailures, vh.OracleFailure{Key: key, What: what, Case: c})
 }
 
 func (rn *runner) add(term string, c *caseJSON, nontrivial bool, distinctKey string) {
+	if rn.quiet {
+		return
+	}
 	rn.terms = append(rn.terms, term)
 	rn.cases = append(rn.cases, c)
 	rn.res.Evaluations++
@@ -610,35 +626,41 @@ func nativeTerm(al plugintypes.AuditLog, out []byte) (string, bool) {
 
 // ---- one transaction case ----
 
-func (rn *runner) runTx(c *caseJSON) {
-	c.Kind = "tx"
-	c.Recs, c.Cbs, c.Intr, c.Det = nil, nil, nil, nil
-	var cbs []int
-	cb := func(mr types.MatchedRule) { cbs = append(cbs, mr.Rule().ID()) }
-	var tx txAPI
-	var closeWriter func()
-	target := ""
-	w := &capWriter{}
+// wafHandle is one real WAF with its audit writer and error callback, shared by the transactions of a case.
+type wafHandle struct {
+	newTx  func(id string) txAPI
+	w      *capWriter
+	target string
+	cbs    []int
+	ncb    int
+	nrec   int
+	off    int
+	closeF func()
+}
+
+func (rn *runner) buildWAF(c *caseJSON) *wafHandle {
+	h := &wafHandle{w: &capWriter{}}
+	cb := func(mr types.MatchedRule) { h.cbs = append(h.cbs, mr.Rule().ID()) }
 	if c.Writer == "serial" {
 		rn.nfile++
-		target = filepath.Join(rn.tmp, fmt.Sprintf("audit-%d.log", rn.nfile))
+		h.target = filepath.Join(rn.tmp, fmt.Sprintf("audit-%d.log", rn.nfile))
 		waf := corazawaf.NewWAF()
 		p := seclang.NewParser(waf)
-		if err := p.FromString(directives(c, target)); err != nil {
+		if err := p.FromString(directives(c, h.target)); err != nil {
 			rn.res.Notes = append(rn.res.Notes, "config rejected: "+err.Error())
-			return
+			return nil
 		}
 		if err := waf.InitAuditLogWriter(); err != nil {
 			rn.res.Notes = append(rn.res.Notes, "writer init: "+err.Error())
-			return
+			return nil
 		}
 		if c.Callback {
 			waf.SetErrorCallback(cb)
 		}
-		closeWriter = func() { _ = waf.AuditLogWriter().Close(); _ = waf.Close() }
-		tx = waf.NewTransactionWithOptions(corazawaf.Options{ID: c.TxID})
+		h.closeF = func() { _ = waf.AuditLogWriter().Close(); _ = waf.Close(); _ = os.Remove(h.target) }
+		h.newTx = func(id string) txAPI { return waf.NewTransactionWithOptions(corazawaf.Options{ID: id}) }
 	} else {
-		curWriter = w
+		curWriter = h.w
 		conf := coraza.NewWAFConfig().WithDirectives(directives(c, ""))
 		if c.Callback {
 			conf = conf.WithErrorCallback(cb)
@@ -646,15 +668,35 @@ func (rn *runner) runTx(c *caseJSON) {
 		waf, err := coraza.NewWAF(conf)
 		if err != nil {
 			rn.res.Notes = append(rn.res.Notes, "config rejected: "+err.Error())
-			return
+			return nil
 		}
-		closeWriter = func() {
+		h.closeF = func() {
 			if cl, ok := waf.(interface{ Close() error }); ok {
 				_ = cl.Close()
 			}
 		}
-		tx = waf.NewTransactionWithID(c.TxID).(txAPI)
+		h.newTx = func(id string) txAPI { return waf.NewTransactionWithID(id).(txAPI) }
 	}
+	return h
+}
+
+// runTx: one transaction on a fresh WAF.
+func (rn *runner) runTx(c *caseJSON) {
+	c.Kind = "tx"
+	h := rn.buildWAF(c)
+	if h == nil {
+		return
+	}
+	rn.runOne(h, c)
+	h.closeF()
+}
+
+// runOne drives one transaction on the WAF of h (closing it afterwards, so that the pool hands the same
+// object to the next one), collects what this transaction logged, runs the per-transaction oracles and
+// emits the CTx case.
+func (rn *runner) runOne(h *wafHandle, c *caseJSON) {
+	c.Recs, c.Cbs, c.Intr, c.Det = nil, nil, nil, nil
+	tx := h.newTx(c.TxID)
 	drive(tx, c)
 	if it := tx.Interruption(); it != nil {
 		s := it.Status
@@ -666,18 +708,23 @@ func (rn *runner) runTx(c *caseJSON) {
 			c.Det = &s
 		}
 	}
+	cbs := append([]int{}, h.cbs[h.ncb:]...)
+	h.ncb = len(h.cbs)
 	c.Cbs = cbs
 	fired := 0
 	if mr, ok := tx.(interface{ MatchedRules() []types.MatchedRule }); ok {
 		fired = len(mr.MatchedRules())
 	}
 	_ = tx.Close()
-	closeWriter()
 
 	rn.res.OracleEvaluations++
 	if c.Writer == "serial" {
-		data, _ := os.ReadFile(target)
-		_ = os.Remove(target)
+		all, _ := os.ReadFile(h.target)
+		data := all
+		if h.off <= len(all) {
+			data = all[h.off:]
+		}
+		h.off = len(all)
 		if len(data) > 0 {
 			if c.Format == "json" {
 				lines := bytes.Split(bytes.TrimSuffix(data, []byte("\n")), []byte("\n"))
@@ -704,7 +751,12 @@ func (rn *runner) runTx(c *caseJSON) {
 			}
 		}
 	} else {
-		for _, al := range w.recs {
+		w := h.w
+		w.mu.Lock()
+		recs := append([]plugintypes.AuditLog{}, w.recs[h.nrec:]...)
+		h.nrec = len(w.recs)
+		w.mu.Unlock()
+		for _, al := range recs {
 			r := recOf(al)
 			c.Recs = append(c.Recs, r)
 			if w.fmtr == nil {
@@ -719,11 +771,11 @@ func (rn *runner) runTx(c *caseJSON) {
 				rn.checkJSON(c, al, out)
 			} else {
 				rn.checkNativeShape(c, out, c.TxID)
-				if term, ok := nativeTerm(al, out); ok && rn.ncap < rn.capLimit {
+				if term, ok := nativeTerm(al, out); ok && rn.ncap < rn.capLimit && c.Kind == "tx" {
 					rn.ncap++
 					nc := &caseJSON{Kind: "native", Note: "captured from tx " + c.TxID, OutHex: hex.EncodeToString(out), Parts: r.Parts, Tx: c}
 					rn.add(term, nc, true, "native|"+c.TxID)
-					rn.res.InputDistribution["native_captured"]++
+					rn.dist("native_captured")
 				}
 			}
 		}
@@ -746,28 +798,31 @@ func (rn *runner) runTx(c *caseJSON) {
 		}
 	}
 
-	d := rn.res.InputDistribution
-	d["tx_total"]++
-	d["tx_audit_"+strings.ToLower(c.AuditEngine)]++
-	d["tx_rule_"+strings.ToLower(c.RuleEngine)]++
-	d["tx_writer_"+c.Writer+"_"+c.Format]++
+	fam := "tx"
+	if c.Kind == "series" {
+		fam = "series_tx"
+	}
+	rn.dist(fam + "_total")
+	rn.dist(fam + "_audit_" + strings.ToLower(c.AuditEngine))
+	rn.dist(fam + "_rule_" + strings.ToLower(c.RuleEngine))
+	rn.dist(fam + "_writer_" + c.Writer + "_" + c.Format)
 	if c.Pattern != "" {
-		d["tx_pattern"]++
+		rn.dist(fam + "_pattern")
 	}
 	if c.Parts == "" {
-		d["tx_default_parts"]++
+		rn.dist(fam + "_default_parts")
 	}
 	if len(c.Recs) > 0 {
-		d["tx_record_written"]++
+		rn.dist(fam + "_record_written")
 	}
 	if c.Intr != nil {
-		d["tx_interrupted"]++
+		rn.dist(fam + "_interrupted")
 	}
 	if c.Det != nil {
-		d["tx_would_be_interrupted"]++
+		rn.dist(fam + "_would_be_interrupted")
 	}
 	if len(cbs) > 0 {
-		d["tx_callbacks"]++
+		rn.dist(fam + "_callbacks")
 	}
 	hasCtl := false
 	for _, r := range c.Rules {
@@ -776,13 +831,154 @@ func (rn *runner) runTx(c *caseJSON) {
 		}
 	}
 	if hasCtl {
-		d["tx_with_ctl"]++
+		rn.dist(fam + "_with_ctl")
 	}
 	if fired > 0 {
-		d["tx_rules_fired"]++
+		rn.dist(fam + "_rules_fired")
 	}
-	key, _ := json.Marshal([]any{c.AuditEngine, c.RuleEngine, c.Parts, c.Pattern, c.Format, c.Writer, c.Callback, c.Defaults, c.Rules, c.NArgs, c.Last, c.Code})
+	key, _ := json.Marshal([]any{c.Kind, c.Focus, c.Series, c.AuditEngine, c.RuleEngine, c.Parts, c.Pattern, c.Format, c.Writer, c.Callback, c.Defaults, c.Rules, c.NArgs, c.Last, c.Code})
 	rn.add(txTerm(c), c, fired > 0 && (len(c.Recs) > 0 || len(cbs) > 0 || strings.EqualFold(c.AuditEngine, "RelevantOnly")), string(key))
+}
+
+// ---- series: several transactions, one after the other, on ONE WAF ----
+//
+// Each transaction is closed before the next starts, so the pool hands the same Transaction object
+// back. Some transactions trigger the ctl rules (kind "args": they fire only when the request has
+// arguments), the others do not. Every transaction is compared with the model run on that transaction
+// ALONE under the configured settings (the model has no state between transactions:
+// C19_log_of_transactions), and with the same transaction on a fresh WAF (implementation-side oracle).
+
+type txSpec struct {
+	NArgs int    `json:"nargs"`
+	Last  int    `json:"last"`
+	Code  int    `json:"code"`
+	TxID  string `json:"txid"`
+}
+
+func obsKey(c *caseJSON) string {
+	j, _ := json.Marshal([]any{c.Recs, c.Cbs, c.Intr, c.Det})
+	return string(j)
+}
+
+func (rn *runner) runSeries(base *caseJSON) {
+	base.Kind = "series"
+	h := rn.buildWAF(base)
+	if h == nil {
+		return
+	}
+	var per []*caseJSON
+	for i, sp := range base.Series {
+		c := *base
+		c.Focus = i
+		c.NArgs, c.Last, c.Code, c.TxID = sp.NArgs, sp.Last, sp.Code, sp.TxID
+		per = append(per, &c)
+		rn.runOne(h, &c)
+	}
+	h.closeF()
+	rn.dist("series")
+	// the same transactions, each on a WAF of its own
+	for _, c := range per {
+		f := *c
+		f.Kind = "fresh"
+		f.Series = nil
+		rn.quiet = true
+		hf := rn.buildWAF(&f)
+		if hf != nil {
+			rn.runOne(hf, &f)
+			hf.closeF()
+		}
+		rn.quiet = false
+		rn.res.OracleEvaluations++
+		if hf != nil && obsKey(&f) != obsKey(c) {
+			rn.fail("c19-series-differs-from-fresh", fmt.Sprintf("transaction %d (%s) of a series on one WAF logs %s, the same transaction on a fresh WAF logs %s",
+				c.Focus, c.TxID, obsKey(c), obsKey(&f)), c)
+		}
+	}
+}
+
+var seriesCtls = []string{
+	"auditEngine=Off", "auditEngine=On", "auditEngine=RelevantOnly",
+	"auditLogParts=-K", "auditLogParts=+E", "auditLogParts=-H", "auditLogParts=AHZ", "auditLogParts=ABCEFHKZ", "auditLogParts=-BCFH",
+	"ruleEngine=Off", "ruleEngine=DetectionOnly", "ruleEngine=On",
+}
+
+func seriesSpecs(r *rand.Rand, tag string, n int) []txSpec {
+	var sp []txSpec
+	for i := 0; i < n; i++ {
+		sp = append(sp, txSpec{NArgs: pick(r, []int{0, 0, 1, 2}), Last: pick(r, []int{4, 4, 4, 2, 1}), Code: pick(r, []int{200, 200, 403, 404, 500}), TxID: fmt.Sprintf("%s.%d", tag, i)})
+	}
+	// make sure a triggering transaction is followed by a plain one
+	k := r.Intn(n - 1)
+	sp[k].NArgs = 1 + r.Intn(2)
+	sp[k+1].NArgs = 0
+	return sp
+}
+
+// fixedSeries: for every ctl value, a WAF configured the other way; transaction 0 is plain, 1 triggers
+// the ctl, 2 and 3 are plain again.
+func fixedSeries() []*caseJSON {
+	var out []*caseJSON
+	n := 0
+	for _, ctl := range seriesCtls {
+		for _, format := range []string{"json", "native"} {
+			for _, writer := range []string{"plugin", "serial"} {
+				if writer == "serial" && format == "json" && n%3 != 0 {
+					continue
+				}
+				n++
+				ae := "On"
+				if ctl == "auditEngine=On" {
+					ae = "RelevantOnly"
+				}
+				c := &caseJSON{Kind: "series", AuditEngine: ae, RuleEngine: "On", Parts: "ABCFHKZ", Pattern: "^403$", Format: format, Writer: writer, Callback: true}
+				c.Rules = []ruleJSON{
+					{ID: 1, Phase: 1, Kind: "args", Acts: []string{"nolog"}, Ctls: []string{ctl}, Disr: "pass"},
+					{ID: 2, Phase: 2, Kind: "action", Acts: []string{"log", "auditlog"}, Disr: "pass"},
+					{ID: 3, Phase: 5, Kind: "action", Acts: []string{"nolog", "auditlog"}, Disr: "pass"},
+				}
+				tag := fmt.Sprintf("s%d", n)
+				c.Series = []txSpec{{0, 4, 200, tag + ".0"}, {1, 4, 200, tag + ".1"}, {0, 4, 200, tag + ".2"}, {0, 4, 403, tag + ".3"}}
+				out = append(out, c)
+			}
+		}
+	}
+	return out
+}
+
+func genSeries(r *rand.Rand, i int) *caseJSON {
+	c := genTx(r, i)
+	c.Kind = "series"
+	c.ReqBodyHex, c.RespBodyHex = "", ""
+	if c.RuleEngine == "Off" {
+		c.RuleEngine = "On"
+	}
+	if r.Intn(3) != 0 {
+		c.AuditEngine = pick(r, []string{"On", "On", "RelevantOnly"})
+	}
+	c.Writer = "plugin"
+	if r.Intn(5) == 0 {
+		c.Writer = "serial"
+	}
+	hasCtl := false
+	maxID := 0
+	for k := range c.Rules {
+		if len(c.Rules[k].Ctls) > 0 {
+			c.Rules[k].Kind = "args" // fires only in the transactions that carry arguments
+			hasCtl = true
+		} else if c.Rules[k].Kind == "args" && r.Intn(2) == 0 {
+			c.Rules[k].Kind = "action"
+		}
+		if c.Rules[k].ID > maxID {
+			maxID = c.Rules[k].ID
+		}
+	}
+	if !hasCtl || r.Intn(2) == 0 {
+		ru := ruleJSON{ID: maxID + 1, Phase: 1 + r.Intn(2), Kind: "args", Acts: pick(r, logActSets), Ctls: []string{pick(r, seriesCtls)}, Disr: "pass"}
+		// configuration order: keep phases sorted is not required by the engine; append
+		c.Rules = append(c.Rules, ru)
+	}
+	c.Series = seriesSpecs(r, fmt.Sprintf("q%d", i), 3+r.Intn(6))
+	return c
 }
 
 func (rn *runner) checkJSON(c *caseJSON, al plugintypes.AuditLog, out []byte) {
@@ -1307,6 +1503,8 @@ func (rn *runner) runDoc(doc []byte) error {
 	switch c.Kind {
 	case "tx":
 		rn.runTx(&c)
+	case "series":
+		rn.runSeries(&c)
 	case "parse":
 		s, _ := hex.DecodeString(c.SHex)
 		rn.runParse(string(s))
@@ -1396,8 +1594,23 @@ func Run(cfg vh.Config) (*vh.Result, error) {
 	if err := flush("C19_0"); err != nil {
 		return nil, err
 	}
+	for _, c := range fixedSeries() {
+		rn.runSeries(c)
+	}
+	nSeries := cfg.Pick(40, 1500)
+	for i := 0; i < nSeries; i++ {
+		rn.runSeries(genSeries(rng, i))
+		if len(rn.terms) >= cfg.Pick(250, 400) {
+			if err := flush(fmt.Sprintf("C19_s%d", i)); err != nil {
+				return nil, err
+			}
+		}
+	}
+	if err := flush("C19_s"); err != nil {
+		return nil, err
+	}
 
-	nTx := cfg.Pick(450, 8000)
+	nTx := cfg.Pick(300, 6000)
 	per := cfg.Pick(250, 400)
 	shard := 1
 	for i := 0; i < nTx; i++ {
